@@ -54,7 +54,8 @@ def rand_band(rng, bid, big=False):
     if st in ("nohunks_complete", "nohunks_incomplete"):
         band["hunks"] = {}
     if st in ("complete", "nohunks_complete"):
-        band.update(head=True, tail=True)
+        # the tail of a complete version may state more hunks than are (still) there: missing trailing hunks
+        band.update(head=True, tail=True if rng.random() < 0.6 else len(band["hunks"]) + rng.choice([1, 2]))
     elif st in ("incomplete", "nohunks_incomplete"):
         band.update(head=True, tail=False)
     elif st == "headless":
